@@ -127,24 +127,32 @@ Fixpoint part_all (U : list svar) (rs : list hrel) (seen : list loc) : list (lis
   | r :: rs' => let '(ids, s) := part_ids (ptr r) U seen in ids :: part_all U rs' s
   end.
 
-(* one snapshot: aliases(u) for every relation and u; object ids for every relation and u *)
-Definition hobs : Type := list (list (list svar)) * list (list nat).
+(* the value observations are those of the value-level check (obs_rel: aliases(u) and
+   canonical_signed(u) per universe element, canonical_variables), now answered by the heap model *)
+Definition hobs_matches (U : list svar) (w : world) (r : hrel) (o : obs_rel) : bool :=
+  bool_decide (length o.1 = length U) &&
+  forallb (fun '(k, (A, c)) =>
+      bool_decide (hcls w r k = list_to_set A) && bool_decide (canon (hcm r) k = c))
+    (zip U o.1) &&
+  bool_decide (hcv r = list_to_set o.2).
 
-Definition hobs_vals (U : list svar) (w : world) (r : hrel) (o : list (list svar)) : bool :=
-  bool_decide (length o = length U) &&
-  forallb (fun '(k, A) => bool_decide (hcls w r k = list_to_set A)) (zip U o).
+Definition hobs_all (U : list svar) (w : world) (os : list obs_rel) (ids : list (list nat)) : bool :=
+  bool_decide (length (rels w) = length os) &&
+  forallb (fun '(r, o) => hobs_matches U w r o) (zip (rels w) os) &&
+  bool_decide (part_all U (rels w) [] = ids).
 
-Definition hobs_all (U : list svar) (w : world) (o : hobs) : bool :=
-  bool_decide (length (rels w) = length o.1) &&
-  forallb (fun '(r, ob) => hobs_vals U w r ob) (zip (rels w) o.1) &&
-  bool_decide (part_all U (rels w) [] = o.2).
-
-Fixpoint hcheck_trace (U : list svar) (w : world) (ops : list op) (obs : list hobs) : bool :=
-  match ops, obs with
-  | [], [] => true
-  | o :: ops', ob :: obs' => let w' := hstep w o in hobs_all U w' ob && hcheck_trace U w' ops' obs'
-  | _, _ => false
+Fixpoint hcheck_trace (U : list svar) (w : world) (ops : list op)
+    (obs : list (list obs_rel)) (ids : list (list (list nat))) : bool :=
+  match ops, obs, ids with
+  | [], [], [] => true
+  | o :: ops', ob :: obs', id :: ids' =>
+      let w' := hstep w o in hobs_all U w' ob id && hcheck_trace U w' ops' obs' ids'
+  | _, _, _ => false
   end.
 
-Definition check_case_heap (c : list svar * list op * list hobs) : bool :=
-  let '(U, ops, obs) := c in hcheck_trace U world0 ops obs.
+(* a case = universe, ops, value observation after each op, object-identity ids after each op *)
+Definition hcase : Type := list svar * list op * list (list obs_rel) * list (list (list nat)).
+Definition check_case_heap (c : hcase) : bool :=
+  let '(U, ops, obs, ids) := c in hcheck_trace U world0 ops obs ids.
+Definition check_case_value (c : hcase) : bool := check_case c.1.
+Definition check_case_both (c : hcase) : bool := check_case_value c && check_case_heap c.
